@@ -88,8 +88,11 @@ def scn_normalized(T, case):
     n, Nv = len(kinds), 2
     lb, ub = _bounds(T, "b", kinds)
     nc = NC(lb, ub)
+    # the statement fixes WHICH entries there are (one per finite side of every row, equalities once), not their order: every clause
+    # below holds for any layout (row by row, lower sides before upper sides, ...), as long as values, Jacobians and the eq / ineq
+    # labels are laid out alike
     want = expected_entries(kinds)
-    T.prove("C08.normalized.one_entry_per_finite_side_in_row_order", [bool(e) for e in nc.is_eq] == [s == "eq" for _, s in want] and len(nc.is_eq) == len(want))
+    T.prove("C08.normalized.one_entry_per_finite_side", len(nc.is_eq) == len(want) and sorted(bool(e) for e in nc.is_eq) == sorted(s == "eq" for _, s in want))
     if len(nc.is_eq) != len(want):
         return
     vals = T.real("values", (n,))
@@ -98,23 +101,26 @@ def scn_normalized(T, case):
     nc.set_gradients(jac)
     C, G = nc.constraints, nc.gradients
     T.prove("C08.normalized.shapes", tuple(C.shape) == (len(want), 1) and tuple(G.shape) == (len(want), Nv))
-    for e, (i, side) in enumerate(want):
-        if side in ("eq", "lo"):
-            T.prove("C08.normalized.value_is_value_minus_bound", T.same(C[e, 0], vals[i] - lb[i]))
-            T.prove("C08.normalized.jacobian_has_the_sign_of_the_value", T.same(G[e, :], jac[i, :]))
-        else:
-            T.prove("C08.normalized.upper_side_is_bound_minus_value", T.same(C[e, 0], ub[i] - vals[i]))
-            T.prove("C08.normalized.jacobian_has_the_sign_of_the_value", T.same(G[e, :], -jac[i, :]))
-    # the equivalence of the statement: a value satisfies the configured bounds iff all its normalized entries do
-    for i in range(n):
-        ok_norm = T.all([(T.same(C[e, 0], 0.0 * vals[i]) if side == "eq" else C[e, 0] >= 0) for e, (r, side) in enumerate(want) if r == i] or [True])
-        ok_conf = feasible(T, vals[i], lb[i], ub[i])
-        T.prove("C08.normalized.feasible_iff_all_entries_feasible", T.all([T.implies(ok_conf, ok_norm), T.implies(ok_norm, ok_conf)]))
-    # batched values (population methods): columns are points
     vb = T.real("batch_values", (n, 2))
     nc.set_constraints(vb)
-    for e, (i, side) in enumerate(want):
-        T.prove("C08.normalized.batched_values_column_wise", T.same(nc.constraints[e, :], (vb[i, :] - lb[i]) if side != "up" else (ub[i] - vb[i, :])))
+    CB = nc.constraints
+
+    def is_side(e, i, side):
+        """entry e restates side `side` of row i: label, value (single and batched, column-wise) and Jacobian with the sign of the value"""
+        if bool(nc.is_eq[e]) != (side == "eq"):
+            return False
+        if side in ("eq", "lo"):
+            return T.all([T.same(C[e, 0], vals[i] - lb[i]), T.same(G[e, :], jac[i, :]), T.same(CB[e, :], vb[i, :] - lb[i])])
+        return T.all([T.same(C[e, 0], ub[i] - vals[i]), T.same(G[e, :], -jac[i, :]), T.same(CB[e, :], ub[i] - vb[i, :])])
+
+    for e in range(len(want)):
+        T.prove("C08.normalized.every_entry_is_a_configured_side_with_value_and_jacobian_of_the_same_sign", T.any([is_side(e, i, side) for (i, side) in want]))
+    for (i, side) in want:
+        T.prove("C08.normalized.every_configured_side_has_its_entry", T.any([is_side(e, i, side) for e in range(len(want))]))
+    # the equivalence of the statement: the values satisfy the configured bounds iff all normalized entries do
+    ok_norm = T.all([(T.same(C[e, 0], 0.0 * vals[0]) if bool(nc.is_eq[e]) else C[e, 0] >= 0) for e in range(len(want))] or [True])
+    ok_conf = T.all([feasible(T, vals[i], lb[i], ub[i]) for i in range(n)])
+    T.prove("C08.normalized.feasible_iff_all_entries_feasible", T.all([T.implies(ok_conf, ok_norm), T.implies(ok_norm, ok_conf)]))
     nc.reset()
     T.prove("C08.normalized.reset_clears_both_caches", nc.constraints is None and nc.gradients is None)
 
@@ -298,46 +304,59 @@ def scn_problem(T, case):
                 want = T.np.array([[Fs[1 + k](*[P[i, s_] for i in range(nf)]) for s_ in range(S)] for k in range(K)])
                 T.prove("C08.vectorized.constraint_entry_k_s_is_constraint_k_at_member_s", tuple(vals.shape) == (K, S) and T.same(vals, want), tag)
         return
-    # ---- dictionary constraints: entries in row order, non-linear rows first
+    # ---- dictionary constraints: one entry per finite side of every configured row - in ANY order (the statement does not fix one),
+    # as long as type, value and Jacobian of an entry belong together
     want = [(row, side) for row in rows for (i, side) in expected_entries([row[5]])]
     T.prove("C08.dicts.one_entry_per_finite_side_of_every_configured_row", len(cons) == len(want))
     if len(cons) != len(want):
         return
-    for e, ((grp, idx, val, lo, up, kind), side) in enumerate(want):
-        d = cons[e]
-        T.prove("C08.dicts.type_is_eq_exactly_for_equality_rows", d["type"] == ("eq" if side == "eq" else "ineq"))
-        got = d["fun"](xf)
-        T.prove("C08.dicts.value_restates_the_configured_row", T.same(got[0], (val - lo) if side != "up" else (up - val)))
-        if method != "cobyla":
-            jac = d["jac"](xf)
-            if grp == "nl":
-                dv = [Gs[1 + idx][c](*[xf[i] for i in range(len(free))]) for c in range(len(free))]
-            else:
-                dv = [A[idx, i] for i in free]
-            sgn = -1.0 if side == "up" else 1.0
-            T.prove("C08.dicts.jacobian_is_the_derivative_of_the_entry_with_the_same_sign", T.all([T.same(jac[c], sgn * dv[c]) for c in range(len(free))]))
-        else:
-            T.prove("C08.dicts.cobyla_entries_carry_no_jacobian", "jac" not in d)
-    # ---- the passed callables describe the point they are GIVEN: evaluate them at a second, distant point right away
-    # (no objective request in between), then again at the first one
+    # the passed callables describe the point they are GIVEN: every entry is evaluated at the test point, at a second, distant point
+    # right away (no objective request in between), at the first one again, at a point that differs from the first in ONE coordinate
+    # in the middle only, and at the first one once more
     xg = T.real("second_test_point", (len(free),))
     # (distant in the sense of the request pool of C07: farther apart than 1e-3 (1 + |x|), so that the optimizer's np.allclose test tells them apart)
     T.assume(T.all([(abs(xg[i] - xf[i]) > 1e-3 * (1.0 + abs(xf[i]))) & (abs(xg[i] - xf[i]) > 1e-3 * (1.0 + abs(xg[i]))) for i in range(len(free))]))
-    xg_full = [xg[free.index(i)] if i in free else x0[i] for i in range(Nv)]
-    for e, ((grp, idx, val, lo, up, kind), side) in enumerate(want):
-        v2 = Fs[1 + idx](*[xg[i] for i in range(len(free))]) if grp == "nl" else T.total([A[idx, i] * xg_full[i] for i in range(Nv)])
-        T.prove("C08.dicts.value_is_that_of_the_point_passed_in", T.same(cons[e]["fun"](xg)[0], (v2 - lo) if side != "up" else (up - v2)))
-        T.prove("C08.dicts.value_is_that_of_the_point_passed_in", T.same(cons[e]["fun"](xf)[0], (val - lo) if side != "up" else (up - val)))
-    # ... and at a point that differs from the first in ONE coordinate in the middle only
     xh = xf.copy()
     mid = len(free) // 2
     xh[mid] = xh[mid] + T.real("one_coordinate_shift", (), lo=0.5, hi=2.0)
     T.assume((abs(xh[mid] - xf[mid]) > 1e-3 * (1.0 + abs(xf[mid]))) & (abs(xh[mid] - xf[mid]) > 1e-3 * (1.0 + abs(xh[mid]))))  # distant in the sense above
-    xh_full = [xh[free.index(i)] if i in free else x0[i] for i in range(Nv)]
-    for e, ((grp, idx, val, lo, up, kind), side) in enumerate(want):
-        v3 = Fs[1 + idx](*[xh[i] for i in range(len(free))]) if grp == "nl" else T.total([A[idx, i] * xh_full[i] for i in range(Nv)])
-        T.prove("C08.dicts.value_is_that_of_the_point_passed_in", T.same(cons[e]["fun"](xh)[0], (v3 - lo) if side != "up" else (up - v3)), "one coordinate differs")
-        T.prove("C08.dicts.value_is_that_of_the_point_passed_in", T.same(cons[e]["fun"](xf)[0], (val - lo) if side != "up" else (up - val)), "first point again")
+    probes = [xf, xg, xf, xh, xf]
+    seen = []
+    for e, d in enumerate(cons):
+        rec = {"type": d["type"], "vals": [], "jac": None}
+        rec["vals"].append(d["fun"](probes[0])[0])
+        if method != "cobyla":
+            rec["jac"] = d["jac"](probes[0])
+        else:
+            T.prove("C08.dicts.cobyla_entries_carry_no_jacobian", "jac" not in d)
+        seen.append(rec)
+    for k in range(1, len(probes)):
+        for e, d in enumerate(cons):
+            seen[e]["vals"].append(d["fun"](probes[k])[0])
+
+    def value_at(grp, idx, pt):
+        full = [pt[free.index(i)] if i in free else x0[i] for i in range(Nv)]
+        return Fs[1 + idx](*[pt[i] for i in range(len(free))]) if grp == "nl" else T.total([A[idx, i] * full[i] for i in range(Nv)])
+
+    def restates(e, row, side):
+        grp, idx, val, lo, up, kind = row
+        rec = seen[e]
+        if rec["type"] != ("eq" if side == "eq" else "ineq"):
+            return False
+        parts = []
+        for k, pt in enumerate(probes):
+            v = value_at(grp, idx, pt)
+            parts.append(T.same(rec["vals"][k], (v - lo) if side != "up" else (up - v)))
+        if rec["jac"] is not None:
+            dv = [Gs[1 + idx][c](*[xf[i] for i in range(len(free))]) for c in range(len(free))] if grp == "nl" else [A[idx, i] for i in free]
+            sgn = -1.0 if side == "up" else 1.0
+            parts += [T.same(rec["jac"][c], sgn * dv[c]) for c in range(len(free))]
+        return T.all(parts)
+
+    for e in range(len(cons)):
+        T.prove("C08.dicts.every_entry_restates_a_configured_side_at_the_point_passed_in_with_its_jacobian", T.any([restates(e, row, side) for (row, side) in want]))
+    for (row, side) in want:
+        T.prove("C08.dicts.every_configured_side_is_restated_by_an_entry", T.any([restates(e, row, side) for e in range(len(cons))]))
     # ---- equivalence of the statement
     ok_conf = T.all([feasible(T, val, lo, up) for (_, _, val, lo, up, _) in rows] or [True])
     ok_pass = T.all([(T.same(cons[e]["fun"](xf)[0], 0.0 * xf[0]) if cons[e]["type"] == "eq" else cons[e]["fun"](xf)[0] >= 0) for e in range(len(cons))] or [True])
